@@ -369,5 +369,6 @@ DecV(b, maxSize, virt) ==
 
 Dec(b, maxSize) == DecV(b, maxSize, 0)
 \* the rejection is demanded by the statement of C02 (otherwise the outcome is not pinned down)
-Must(why) == why \in {"length", "unknown-property", "repeated-property", "reason", "zero-id", "qos3", "utf8", "oversize"}
+\* ("varint": a variable byte integer of more than four bytes denotes no length at all)
+Must(why) == why \in {"length", "varint", "unknown-property", "repeated-property", "reason", "zero-id", "qos3", "utf8", "oversize"}
 =============================================================================
